@@ -89,6 +89,7 @@ PROPS = {
             enum("O0", ["props/C15_enum.cpp", "shims/bf_table.c"], qs=8, ts=16, cflags=["-O0"]),
             enum("uchar", ["props/C15_enum.cpp", "shims/bf_table.c"], qs=8, ts=16, cflags=["-funsigned-char"]),   # the ABI of most embedded targets: plain char is unsigned   # accessors compiled without optimisation: locals live in (poisoned) stack slots
             enum("fast", ["props/C15_enum.cpp", "shims/bf_table.c"], qs=0, ts=16, lib="fast", cxxflags=["-DVP_FAST", "-O2"], cflags=["-O2"]),
+            enum("alias", ["props/C15_alias_enum.cpp", "shims/bf_alias.c"], qs=2, ts=4, lib="fast", cxxflags=["-O2"], cflags=["-O2", "-fstrict-aliasing"]),   # typed stores by the caller, optimised build without sanitizers
         ],
     ),
     "C12": dict(
